@@ -122,6 +122,41 @@ class Interp:
         return env
 
     # ------------------------------------------------------------------ helpers
+    def discr_of(self, short):
+        if not hasattr(self, '_discr'):
+            self._discr = {}
+            for it in self.facts.items.values():
+                if it.get('kind') == 'Enum':
+                    for v in it['variants']:
+                        self._discr[hirq.short_def(v['path'])] = v['discr']
+        return self._discr.get(short)
+
+    def inline_call(self, cal, args, node, st):
+        """Evaluate a workspace function interprocedurally (fresh environment, shared heap / events / path condition)."""
+        rec = self.facts.hir.get(cal)
+        if rec is None or getattr(self, '_depth', 0) > 6:
+            return None
+        B = hirq.Body(self.facts, rec)
+        sub = Interp(self.facts, B, self.summaries, self.unroll, self.inline, self.field_hook)
+        sub._depth = getattr(self, '_depth', 0) + 1
+        env = {}
+        states = [St(env, st.heap, st.ev, st.pc, st.ctr)]
+        for p, a in zip(rec['params'], args):
+            nxt = []
+            for s in states:
+                for kind, s2 in sub.match(p, a, s):
+                    if kind != 'no':
+                        nxt.append(s2)
+            states = nxt
+        outs = []
+        for s in states:
+            for o in sub.ev(B.root, s):
+                if o.kind in ('val', 'ret'):
+                    outs.append(Out('val', o.val, St(st.env, o.st.heap, o.st.ev, o.st.pc, o.st.ctr)))
+                elif o.kind == 'div':
+                    outs.append(Out('div', o.val, St(st.env, o.st.heap, o.st.ev, o.st.pc, o.st.ctr)))
+        return outs
+
     def seq(self, exprs, st):
         """Evaluate expressions left to right; returns list of (vals, st) for normal completion and
         list of abnormal Outs."""
@@ -207,7 +242,8 @@ class Interp:
                     outs.append(Out('val', v, o.st))
                 elif v[0] == 'ctor' and not v[2]:
                     # unit variant cast to integer: discriminant if known
-                    outs.append(Out('val', ('cast', v, e.get('ty')), o.st))
+                    d = self.discr_of(v[1])
+                    outs.append(Out('val', ('lit', d) if d is not None else ('cast', v, e.get('ty')), o.st))
                 else:
                     outs.append(Out('val', ('cast', v, e.get('ty')), o.st))
             else:
@@ -588,6 +624,33 @@ class Interp:
 
     def ev_MethodCall(self, e, st):
         cal = callee_of(e) or ('<method %s>' % e.get('name'))
+        if cal == 'core::option::Option::<T>::take' and not e['args']:
+            recv = hirq.peel_refs(e['recv'])
+            if recv['k'] == 'Field':
+                outs = []
+                for o in self.ev(recv['e'], st):
+                    if o.kind != 'val':
+                        outs.append(o); continue
+                    place = ('field', o.val, recv['name'])
+                    old = self.read_field(o.val, recv['name'], o.st)
+                    s2 = o.st.store(place, ('ctor', 'None', ())).event(('call', cal, (old,), e))
+                    if old[0] == 'ctor' and old[1] in ('Some', 'None'):
+                        outs.append(Out('val', old, s2))
+                    else:
+                        outs.append(Out('val', ('call', cal, (old,), e.get('id')), s2))
+                return outs
+        if cal.endswith('alloc::vec::Vec::<T, A>::push') and len(e['args']) == 1:
+            recv = hirq.peel_refs(e['recv'])
+            if recv['k'] == 'Path' and recv.get('res') == 'local':
+                outs = []
+                for o in self.ev(e['args'][0], st):
+                    if o.kind != 'val':
+                        outs.append(o); continue
+                    old = o.st.env.get(recv['bind'], ('unk', 'vec'))
+                    new = ('vec', old[1] + (o.val,)) if old[0] == 'vec' else ('vecpush', old, o.val)
+                    s2 = o.st.set(recv['bind'], new).event(('call', cal, (old, o.val), e))
+                    outs.append(Out('val', UNIT, s2))
+                return outs
         res, abn = self.seq([e['recv']] + e['args'], st)
         outs = []
         for vals, s in res:
@@ -638,6 +701,10 @@ class Interp:
         r = builtin_summary(self, cal, args, node, st)
         if r is not None:
             return r
+        if self.inline(cal):
+            r = self.inline_call(cal, args, node, st)
+            if r is not None:
+                return r
         t = ('call', cal, tuple(args), node.get('id'))
         return [Out('val', t, st.event(('call', cal, tuple(args), node)))]
 
@@ -938,6 +1005,10 @@ def builtin_summary(I, cal, args, node, st):
     is_opt = cal.startswith('core::option::Option::<T>::')
     is_res = cal.startswith('core::result::Result::<T, E>::')
     if hirq.is_transparent(cal) and args:
+        if name == 'clone' and node.get('k') == 'MethodCall' and hirq.strip_refs(node['recv'].get('ty', '')).startswith('ldap3::') \
+                and hirq.strip_refs(node['recv'].get('ty', '')).split('<')[0] in ('ldap3::ldap::Ldap',):
+            # a cloned handle is a distinct object: stores to its fields must not alias the original
+            return [Out('val', ('call', cal, tuple(args), node.get('id')), st.event(('call', cal, tuple(args), node)))]
         return [Out('val', args[0], st)]
     if (is_opt or is_res) and name in ('expect', 'unwrap', 'unwrap_or_default') and args:
         v = args[0]
@@ -986,6 +1057,27 @@ def builtin_summary(I, cal, args, node, st):
                 else:
                     outs.append(o)
         return outs
+    if name in ('box_assume_init_into_vec_unsafe', 'into_vec'):
+        arr = leaves(('x',) + tuple(args), lambda x: x[0] == 'array')
+        if arr:
+            return [Out('val', ('vec', arr[0][1]), st)]
+    if cal.endswith('alloc::vec::Vec::<T>::new') or cal.endswith('alloc::vec::Vec::<T>::with_capacity'):
+        return [Out('val', ('vec', ()), st)]
+    if cal.endswith('alloc::boxed::Box::<T>::new') and args:
+        return [Out('val', args[0], st)]
+    if cal == 'core::iter::traits::iterator::Iterator::map' and len(args) == 2 and args[1][0] in ('closure', 'fn'):
+        src = args[0]
+        el, st2 = st.fresh('elem')
+        el = ('elem', src, el[2])
+        outs = []
+        for o in I.apply(args[1], [el], node, st2):
+            if o.kind == 'val':
+                outs.append(Out('val', ('many', src, el, o.val), o.st))
+            else:
+                outs.append(o)
+        return outs
+    if cal == 'core::iter::traits::iterator::Iterator::collect' and args:
+        return [Out('val', args[0], st)]
     if (cal.endswith('alloc::vec::Vec::<T, A>::pop') or cal.endswith('IntoIter<T, A> as core::iter::traits::iterator::Iterator>::next')
             or cal == 'core::iter::traits::iterator::Iterator::next') and args:
         base = args[0]
